@@ -660,4 +660,4 @@ LEVEL_TEXT = ('Machine-checked proofs (Coq) about an executable model of Smodels
 LEVEL_NOTE = 'Trusted: Coq kernel, extraction+driver (sample cross-checked by vm_compute), harness, translator, abstract stream spec (C09).'
 TECHNIQUE = 'Coq proof about an executable model + differential correspondence with the implementation'
 DESIGN_REF = 'DESIGN.md section 5, C07'
-READY = False
+READY = True
